@@ -850,8 +850,6 @@ def s_untruncated(draw, tier):
         form = "auto"
         driver, eff, caps, _ = plan(method, form, None, 0.0)
     dtype = draw(st.sampled_from(A.DTYPES))
-    if driver == "svd:eig":
-        dtype = draw(st.sampled_from(A.DTYPES64))  # single precision: finding C05-a, owned by `table`
     if driver == "cholesky":
         m, n = draw(s_shape(square=True))
         kind = draw(st.sampled_from(PSD_KINDS))
@@ -866,7 +864,9 @@ def s_untruncated(draw, tier):
         kind = draw(st.sampled_from(GENERAL_KINDS))
     elif driver in LOSSY:
         m, n = draw(s_shape())
-        kind = draw(st.sampled_from(WELL_KINDS + ("rank_k", "zeros")))
+        # exactly rank-deficient inputs only in double: the zero values come back as sqrt(eps) * smax (3.4e-4 in single),
+        # too close to the single-precision tolerance class for a 100x margin
+        kind = draw(st.sampled_from(WELL_KINDS + (("zeros",) if is_single(dtype) else ("rank_k", "zeros"))))
     else:
         m, n = draw(s_shape())
         kind = draw(st.sampled_from(GENERAL_KINDS))
@@ -914,7 +914,6 @@ def s_truncated(draw, tier):
     driver, eff, caps, _ = plan(method, form, 1, 1.0)
     dtype = draw(st.sampled_from(A.DTYPES))
     if driver == "svd:eig":
-        dtype = draw(st.sampled_from(A.DTYPES64))
         m, n = draw(s_shape(lo=2))
         kind = draw(st.sampled_from(WELL_KINDS))  # rank-deficient + svd:eig: finding C05-g, owned by `untruncated`
     elif driver == "eigh":
